@@ -918,23 +918,35 @@ impl C26 {
         }
         let text = cur.to_string();
         let op: Option<Oid> = text.trim_start_matches('-').split_once('@').and_then(|(c, a)| Some(Oid { ctr: c.parse().ok()?, actor: hex::decode(a).ok()? }));
-        let op = match op {
-            Some(o) => o,
-            None => return Ok(()),
-        };
         // immediate resolution: start of the element containing pos
         let changes: Vec<&MChange> = w.reps[r].known.iter().filter_map(|h| w.reg.get(h).map(|c| &**c)).collect();
         let interp = Interp::new(changes.into_iter(), w.cfg.enc);
         let elems = interp.seq_elems(&objref_of(&obj));
         let mut acc = 0;
         let mut start = None;
+        let mut elem: Option<Oid> = None;
         for e in elems.iter().filter(|e| e.visible && e.width > 0) {
             if pos < acc + e.width {
                 start = Some(acc);
+                elem = Some(e.id.clone());
                 break;
             }
             acc += e.width;
         }
+        // a cursor taken at an index inside the sequence is an element cursor, and it names the element containing the index
+        let op = match (op, &elem) {
+            (Some(o), Some(e)) => {
+                if interp.elem_of_op(&o).as_ref() != Some(e) {
+                    return Err(violation("C26", "cursor_names_element", "cursor-names-other-element", w.step, format!("replica {r}: get_cursor({obj}, {pos}, {}) = {text} names {:?}, the element containing {pos} is {}", if before_mode { "Before" } else { "After" }, interp.elem_of_op(&o).map(|x| x.show()), e.show())));
+                }
+                o
+            }
+            (None, Some(e)) => {
+                return Err(violation("C26", "cursor_names_element", "cursor-not-an-element-cursor", w.step, format!("replica {r}: get_cursor({obj}, {pos}, {}) on a sequence of length {len} = {text:?}, not a cursor for element {}", if before_mode { "Before" } else { "After" }, e.show())));
+            }
+            (Some(o), None) => o,
+            (None, None) => return Ok(()),
+        };
         let back = w.reps[r].doc.get_cursor_position(&obj, &cur, None);
         if let Some(s) = start {
             if back.as_ref().ok() != Some(&s) {
